@@ -3458,6 +3458,8 @@ def translate(spec):
         lines = k.block(body, env, None)
     except Unsupported as e:
         return f"/- {rel}::{qual}: outside the translated subset: {e}\n{doc}\n-/\ndef {lean_name}_UNSUPPORTED : Unit := ()\n"
+    except Exception as e:       # a construct the translator does not even recognise: never crash, refuse this kernel only
+        return f"/- {rel}::{qual}: outside the translated subset: translator error {type(e).__name__}: {e}\n{doc}\n-/\ndef {lean_name}_UNSUPPORTED : Unit := ()\n"
     # result type
     parts = [lean_ty(t) for _, t in k.roots]
     if k.ret_ty != "unit":
